@@ -17,7 +17,7 @@ import subprocess
 
 import vlib
 
-TYP_OF_HV = {0: 1, 1: 1, 2: 4, 3: 2, 4: 3, 5: 1}
+TYP_OF_HV = {0: 1, 1: 1, 2: 4, 3: 2, 4: 3, 5: 1, 6: 1}     # 6: legal interface, illegal member name -> refused
 MODEL_MAX_QUICK = 48 * 1024
 MODEL_MAX_THOROUGH = 160 * 1024
 
@@ -112,7 +112,7 @@ def private_scratch():
 
 # ------------------------------------------------------------------ generators
 
-def gen_script(r, big):
+def gen_script(r, big, abandon=True):
     ops = []
     n = r.choice([0, 1, 2, 4, 8, 12, 20, 30])
     for _ in range(n):
@@ -129,12 +129,15 @@ def gen_script(r, big):
             ops.append("W")
         else:
             ops.append("T")
-    ops.append("A" if r.random() < 0.3 else "F")
+    if abandon and r.random() < 0.12:
+        ops.append(r.choice("XXQ"))          # the caller gives the message up: drop / force_finish
+    else:
+        ops.append("A" if r.random() < 0.3 else "F")
     return ",".join(ops)
 
 
 def gen_msg(r, thorough, allow_big):
-    hv = r.choice([0, 1, 2, 3, 4, 0, 1, 5])
+    hv = r.choice([0, 1, 2, 3, 4, 0, 1, 5, 0, 1, 2, 3, 4, 0, 1, 6])
     sizes = [0, 0, 1, 7, 100, 2000, 4400, 4544, 4600, 9000, 9088, 9200, 20000, 30000, 65536]
     if allow_big:
         sizes += [200000, 262144]
@@ -153,16 +156,33 @@ def gen_msg(r, thorough, allow_big):
         "pay": pay, "seed": r.randrange(1 << 16), "mode": mode, "off": r.choice([0, 0, 3, 8]) if mode == "parts" else 0,
         "script": gen_script(r, pay > 300000),
         "api": "wall" if r.random() < 0.12 else "ctx",
+        "fill": 0,
     }
 
 
+def gen_refused_start(r, m):
+    """the socket is full when the message starts: the first sendmsg is refused at zero bytes; the caller
+    gives up (drops the context / force_finish) or carries on"""
+    m["fill"] = 1
+    m["api"] = "ctx"
+    first = r.choice(["w", "W", "T", "w,w", "W,s,r"])
+    then = r.choice(["X", "X", "Q", "d100000,F", "s,d100000,r,A", "d2240,w,X", "d9088,w,Q"])
+    m["script"] = first + "," + then
+    return m
+
+
 def msg_str(m):
-    return ("api=wall " if m.get("api") == "wall" else "") + " ".join("%s=%s" % (k, m[k]) for k in ("bo", "hv", "plen", "flags", "preset", "nfds", "pay", "seed", "mode", "off", "script"))
+    return ("api=wall " if m.get("api") == "wall" else "") + ("fill=1 " if m.get("fill") else "") + " ".join("%s=%s" % (k, m[k]) for k in ("bo", "hv", "plen", "flags", "preset", "nfds", "pay", "seed", "mode", "off", "script"))
 
 
 def gen_case(r, thorough):
     nm = r.choice([1, 1, 2, 3])
     msgs = [gen_msg(r, thorough, allow_big=(i == 0)) for i in range(nm)]
+    for i in range(nm - 1):
+        if r.random() < 0.12:
+            gen_refused_start(r, msgs[i])
+    if nm >= 2 and r.random() < 0.08:
+        msgs[0]["hv"] = 6                     # a refused message, then a good one on the same connection
     head = {"sndbuf": r.choice([0, 4608, 4608, 4608, 6000, 8192, 16384, 40000]), "pre": r.choice([0, 0, 1, 5, 40])}
     return head, msgs
 
@@ -187,6 +207,7 @@ def parse_case_line(line):
     for m in msgs:
         for k in ("hv", "plen", "flags", "nfds", "pay", "seed", "off"):
             m[k] = int(m[k])
+        m["fill"] = int(m.get("fill", 0))
     return {"sndbuf": int(head["sndbuf"]), "pre": int(head["pre"])}, msgs
 
 
@@ -210,15 +231,28 @@ def u32_at(b, off, bo):
 def predicate(head, m, res, expected_serial):
     """the property evaluated on the implementation's own output; returns list of violated clauses"""
     bad = []
+    if m["hv"] == 6:
+        if res.get("senderr") != "1":
+            bad.append("a message with an illegal member name was accepted by send_message")
+        if int(res.get("peer_len", "0")) != 0:
+            bad.append("%s bytes reached the peer for a message that send_message refused" % res.get("peer_len"))
+        return bad
     if res.get("senderr") != "0":
         return ["send_message failed on a valid message"]
+    abandoned = res.get("abandoned") == "1"
     total = int(res["total"])
     hdr = bytes.fromhex(res["hdr"]) if res["hdr"] != "-" else b""
     bodylen = int(res["bodylen"])
     if total != len(hdr) + bodylen:
         bad.append("bytes_total() = %d is not header %d + body %d" % (total, len(hdr), bodylen))
     # bytes at the peer == header ++ body, exactly once, nothing after
-    if res["mismatch"] != "-" or int(res["peer_len"]) != len(hdr) + bodylen or int(res["extra"]) != 0:
+    if abandoned:
+        # the caller gave the message up: what is out is a prefix of header ++ body of the accepted length, no more
+        last_acc = ([a for _, a in parse_log(res["log"])] or [0])[-1]
+        if res["mismatch"] != "-" or int(res["peer_len"]) != last_acc or int(res["peer_len"]) > len(hdr) + bodylen:
+            bad.append("bytes at the peer for an abandoned message are not the accepted prefix of header ++ body (peer_len=%s accepted=%d first mismatch at %s)"
+                       % (res["peer_len"], last_acc, res["mismatch"]))
+    elif res["mismatch"] != "-" or int(res["peer_len"]) != len(hdr) + bodylen or int(res["extra"]) != 0:
         bad.append("bytes at the peer are not header ++ body exactly once (peer_len=%s expected=%d first mismatch at %s, extra=%s)"
                    % (res["peer_len"], len(hdr) + bodylen, res["mismatch"], res["extra"]))
     # the header the peer reads frames exactly this message: byte order flag, type, flags, version 1, body length,
@@ -239,6 +273,8 @@ def predicate(head, m, res, expected_serial):
         bad.append("header shorter than 16 bytes")
     # descriptors exactly once, in order
     want = ".".join(str(i) for i in range(m["nfds"])) if m["nfds"] else "-"
+    if abandoned and int(res["peer_len"]) == 0:
+        want = "-"                        # nothing went out, so no descriptor either
     if res["fds"] != want or res["ctrunc"] != "0":
         bad.append("descriptors at the peer are %s, sent were %s (each exactly once expected)" % (res["fds"], want))
     # per call accounting and completion only at the end
@@ -255,13 +291,17 @@ def predicate(head, m, res, expected_serial):
                 completed_at = (i, acc)
             if (acc == total) != body.endswith("!") and k > 0:
                 bad.append("all_bytes_written() is %s with %d of %d bytes written" % (body.endswith("!"), acc, total))
-        elif body in ("w:E", "s", "r", "-") or body.startswith("d:"):
+        elif body in ("w:E", "s", "r", "-", "X:ok", "X:panic", "Q") or body.startswith("d:"):
             if delta != 0:
                 bad.append("%d bytes reached the peer during '%s'" % (delta, body))
         elif body.endswith(":ok"):
             completed_at = (i, acc)
         if completed_at and completed_at[0] == i and acc != total:
             bad.append("completion reported with %d of %d bytes written" % (acc, total))
+    if abandoned:
+        if completed_at is not None or res["serial"] != "-":
+            bad.append("completion was reported for a message the caller gave up")
+        return bad
     if completed_at is None:
         bad.append("the send never completed")
     # serial: reported == transmitted (bytes 8..12 in the byte order given by byte 0) == preset / expected
@@ -292,7 +332,11 @@ def model_calls(res):
         prev = acc
         if body == "-" or body.startswith("d:"):
             continue
-        if body == "w:E":
+        if body in ("X:ok", "X:panic"):
+            calls.append("X")
+        elif body == "Q":
+            calls.append("Q")
+        elif body == "w:E":
             calls.append("oE")
         elif body.startswith("w:X") or ":X" in body:
             return None
@@ -317,7 +361,7 @@ def impl_trace(res):
             continue
         if body.startswith("w:"):
             out.append("%s@%d" % (body.rstrip("!"), acc))
-        elif body in ("s", "r"):
+        elif body in ("s", "r", "X:ok", "X:panic", "Q"):
             out.append("%s@%d" % (body, acc))
         elif body.endswith(":ok"):
             out.append("W:ok@%d" % acc)
@@ -332,6 +376,12 @@ def model_line(head, msgs, results):
     parts = ["case pre=%d" % head["pre"]]
     for m, res in zip(msgs, results):
         hdr = bytes.fromhex(res["hdr"]) if res.get("hdr", "-") != "-" else b""
+        plen_ = len(res["prefix"]) // 2 if res["prefix"] != "-" else 0
+        if m["hv"] == 6:
+            # by construction a header field of this message fails validation: the model's field marshaller says so
+            parts.append(("api=wall " if m.get("api") == "wall" else "") + "bo=%s typ=1 flags=%d preset=%s fields=none prefix=%s pay=%d seed=%d nfds=%d calls=" % (
+                m["bo"], m["flags"], m["preset"], res["prefix"], int(res["bodylen"]) - plen_, m["seed"], m["nfds"]))
+            continue
         if len(hdr) < 16:
             return None
         flen = u32_at(hdr, 12, m["bo"])
@@ -348,18 +398,27 @@ def model_line(head, msgs, results):
 def compare_model(m, res, mod):
     """differences between implementation and model on the observables of the property"""
     diffs = []
-    if mod.get("senderr") != "0":
-        return ["model: send_message fails (%s)" % mod.get("senderr")]
+    if mod.get("senderr") != "0" or res.get("senderr") != "0":
+        if mod.get("senderr") == res.get("senderr") == "1":
+            return []
+        return ["send_message: impl senderr=%s model senderr=%s" % (res.get("senderr"), mod.get("senderr"))]
+    abandoned = res.get("abandoned") == "1"
     pairs = [("serial", res["serial"], mod["serial"]), ("total", res["total"], mod["total"]),
              ("header (independent marshal call)", res["hdr"], mod["hdr"]), ("header at the peer", res["peer_hdr"], mod["hdr"]),
              ("body crc", res["bodycrc"], mod["bodycrc"]), ("per-call results and positions", impl_trace(res), mod["trace"]),
              ("wire length", res["peer_len"], mod["wire_len"]), ("wire crc", res["peer_crc"], mod["wire_crc"]),
-             ("descriptors", res["fds"], mod["fds"]), ("wire serial", res["serial"], mod["wire_serial"])]
+             ("descriptors", res["fds"], mod["fds"])]
+    if abandoned:
+        pairs = [p_ for p_ in pairs if p_[0] != "header at the peer"]
+        hl = min(len(res["peer_hdr"]), len(mod["hdr"])) if res["peer_hdr"] != "-" else 0
+        pairs.append(("header bytes at the peer", res["peer_hdr"] if hl else "-", mod["hdr"][:hl] if hl else "-"))
+    else:
+        pairs.append(("wire serial", res["serial"], mod["wire_serial"]))
     for what, a, b in pairs:
         if a != b:
             diffs.append("%s: impl %s model %s" % (what, a[:200], b[:200]))
-    if mod["completed"] != "1":
-        diffs.append("model: not completed")
+    if mod["completed"] != ("0" if abandoned else "1"):
+        diffs.append("model: completed=%s" % mod["completed"])
     if mod["closed"] != "1":
         diffs.append("model: closed form (accepted_sum/run_send) differs from the call-by-call replay")
     return diffs
@@ -453,8 +512,16 @@ def evaluate(ctx, exe, drv, cases, model_max, timeout):
             ctx.count("write_calls", len(writes))
             ctx.count("mode:" + m["mode"])
             ctx.count("api:send_message_write_all" if m.get("api") == "wall" else "api:send_message+context")
+            if res.get("abandoned") == "1":
+                last_acc = ([a for _, a in log] or [0])[-1]
+                ctx.count("abandoned:at_zero_bytes" if last_acc == 0 else "abandoned:after_partial_write")
+                ctx.count("abandoned:" + ("force_finish" if any(b == "Q" for b, _ in log) else "drop_ok" if any(b == "X:ok" for b, _ in log) else "drop_panics"))
+            if m["hv"] == 6:
+                ctx.count("refused_by_send_message")
+            if m.get("fill"):
+                ctx.count("socket_full_at_start")
         # ---- model replay
-        if all(int(res.get("total", "0") or 0) <= model_max and res.get("senderr") == "0" for res in results):
+        if all(int(res.get("total", "0") or 0) <= model_max for res in results):
             ml = model_line(head, msgs, results)
             if ml is not None:
                 mlines.append(ml)
@@ -517,7 +584,8 @@ def coq_crosscheck(ctx, exe, r, count):
         m["pay"] = r.choice([0, 1, 5, 40, 200])
         m["hv"] = r.choice([0, 2, 3])
         m["plen"] = 0
-        m["script"] = gen_script(r, False)
+        m["script"] = gen_script(r, False, abandon=False)
+        m["fill"] = 0
         cases.append(({"sndbuf": 4608, "pre": r.choice([0, 2])}, [m]))
     lines = [case_line(h, ms) for h, ms in cases]
     outs = run_sharded(exe, lines, timeout=120)
@@ -598,7 +666,10 @@ def run(ctx):
                 "body of 0 B .. %s built by push_param or from_parts (with buffer offset), and a random script of "
                 "write_once(Nonblock) / peer drains / into_progress / resume / write(Nonblock) / write(1ms) ended by a "
                 "write loop or write_all, or (about one message in eight) sent through the public wrapper "
-                "send_message_write_all while a thread drains the peer; the kernel decides every accepted size, the harness records it and the model "
+                "send_message_write_all while a thread drains the peer; some messages are given up (context dropped "
+                "or force_finish, at zero bytes - with the socket filled beforehand so that the first sendmsg is refused - or "
+                "after a partial write, where Drop panics by design) or are refused by send_message while the header is "
+                "marshalled (illegal member name), and the next message on the same connection must be intact; the kernel decides every accepted size, the harness records it and the model "
                 "replays it. A case is non-trivial when it saw a short write, EAGAIN or a suspension at a partial position; "
                 "distinct = distinct (message, observed schedule)") % ("4 MiB" if thorough else "256 KiB")
     ctx.trusted = ["Coq 8.16.1 kernel (coqc), no native_compute", "extraction with ExtrOcamlBasic only, ocamlfind ocamlopt 4.13.1",
